@@ -43,7 +43,7 @@ Upd(st, g, res)  == Mk("live", g, NoHandle, st.held, res)
 CtorOK(nc, nr, n) == ~IsBig(nc) /\ ~IsBig(nr) /\ (nc = 0 <=> nr = 0) /\ nc * nr = n
 
 ConstructorOps == {"default", "with_capacity", "new", "init", "from_vec", "from_box"}
-DrainOps       == {"d_next", "d_next_back", "d_len", "d_drop", "d_nth", "d_nth_back", "d_count", "d_last", "d_collect", "d_rcollect"}
+DrainOps       == {"d_next", "d_next_back", "d_len", "d_drop", "d_nth", "d_nth_back", "d_count", "d_last", "d_collect", "d_rcollect", "d_fold", "d_rfold"}
 
 Remaining(h) == SubSeq(h.items, h.f + 1, Len(h.items) - h.b)
 
@@ -91,8 +91,9 @@ ApplyHandle(st, op, a) ==
       [] op = "d_last"      -> IF n > 0
                                THEN Mk(st.phase, st.grid, NoHandle, Append(st.held, h.items[Len(h.items) - h.b]), Some(h.items[Len(h.items) - h.b]))
                                ELSE Mk(st.phase, st.grid, NoHandle, st.held, None)
-      [] op = "d_collect"   -> Mk(st.phase, st.grid, NoHandle, st.held \o Remaining(h), Ids(Remaining(h)))
-      [] op = "d_rcollect"  -> LET rv == [i \in 1..n |-> Remaining(h)[n + 1 - i]] IN
+      \* fold / rfold hand every remaining item to a caller-supplied closure (which here keeps it)
+      [] op \in {"d_collect", "d_fold"} -> Mk(st.phase, st.grid, NoHandle, st.held \o Remaining(h), Ids(Remaining(h)))
+      [] op \in {"d_rcollect", "d_rfold"} -> LET rv == [i \in 1..n |-> Remaining(h)[n + 1 - i]] IN
                                Mk(st.phase, st.grid, NoHandle, st.held \o rv, Ids(rv))
 
 ApplyLive(st, op, a) ==
